@@ -394,6 +394,15 @@ def run_gap(case, ctx):
         <= 1e-8 * want, f'accuracy(Y1, Y2) = {acc!r} but the relative '
         f'distance is {float(want)!r} (scales differ by 1e{g:.0f})', shape=n)
     ctx.nontrivial(['gap', n, int(g)])
+    # one core far below the others (1e-160..1e-300; a finite tensor like any
+    # other): the interface vectors drop by that factor at one bond (repaired
+    # defect D21: the norm of the step vector underflowed there)
+    Yt = [G.copy() for G in gen.cores(rng, n, gen.rand_ranks(rng, d, 3),
+        'normal')]
+    jt = int(rng.integers(d))
+    Yt[jt] = Yt[jt] * 10.0 ** -float(rng.uniform(160, 300))
+    check_interface(ctx, teneva, leaf_val(Yt, False), rng)
+    ctx.event('interface-one-core-tiny')
 
 
 def run_bigrank(case, ctx):
@@ -1009,7 +1018,7 @@ def check_interface(ctx, teneva, v, rng):
             return R, RB, nprod
 
         def step_underflows(k):
-            # known finding (mechanism): the vector of one step, formed from
+            # (repaired defect D21) the vector of one step, formed from
             # the NORMALISED previous one, has norm ||R_k|| / ||R_prev||; below
             # 1e-150 its squares underflow in np.linalg.norm (0 or a few bits),
             # the division gives inf / nan and every later vector inherits it
@@ -1042,9 +1051,11 @@ def check_interface(ctx, teneva, v, rng):
                 # normalised step by step: parallel to R with unit norm
                 ctx.close('interface', got, R / nr,
                     (tol + tn * np.abs(R) / nr) / nr * (d + 1) + 16 * d * EPS,
-                    f'interface linalg norm {kw} bond {k}',
-                    kf='interface-norm-step-underflow'
-                    if step_underflows(k) else None)
+                    f'interface linalg norm {kw} bond {k}')
+                if step_underflows(k):
+                    # repaired defect D21: the norm of such a step vector
+                    # underflowed (inf / nan results)
+                    ctx.event('interface-step-norm-below-1e-150')
 
 
 def check_grad(ctx, teneva, v, rng):
